@@ -50,6 +50,7 @@ type Directives struct {
 	GuardErrors bool // every non-nil error obtained from a callee leads to a non-nil returned error
 	CyclicLemma bool // lemma on a cycle of lemma uses (uses inside the cycle give no facts)
 	Decreases string // lemma: termination measure for self-recursive (inductive) use
+	Sites     []CallSiteDir // assertions checked immediately before a statement with the given source text
 	CallSites []CallSiteDir // assertions checked in the caller's scope immediately before a named call
 	PureFuncValues bool // calls through func-typed variables are uninterpreted pure functions in this VC
 	SpecFrame bool // emit pairwise frame facts for spec applications over slices (window-only dependence)
@@ -146,6 +147,13 @@ func parseDirectives(cg *ast.CommentGroup) *Directives {
 			d.SpecFrame = true
 		case "pure-funcvalues":
 			d.PureFuncValues = true
+		case "site":
+			// `site <statement text>: <expr>`: assertion immediately before every statement whose source
+			// text (first line) equals the given text
+			rest := strings.TrimSpace(strings.TrimPrefix(line, "site"))
+			if i := strings.Index(rest, ": "); i > 0 {
+				d.Sites = append(d.Sites, CallSiteDir{strings.TrimSpace(rest[:i]), strings.TrimSpace(rest[i+2:])})
+			}
 		case "callsite":
 			rest := strings.TrimSpace(strings.TrimPrefix(line, "callsite"))
 			if i := strings.Index(rest, ":"); i > 0 {
